@@ -2,6 +2,7 @@ from sweetpea._internal.sampling_strategy.base import Gen, SamplingResult
 from sweetpea._internal.block import Block
 from sweetpea._internal.cross_block import CrossBlock
 from sweetpea._internal.primitive import *
+from sweetpea._internal.primitive import HiddenName
 from sweetpea._internal.constraint import *
 from sweetpea._internal.sampling_strategy.scattered_map_core import (
     _Factor, _DerivedLevel, _WithinTrial, _Transition,
@@ -62,6 +63,8 @@ class SMGen(Gen):
         for f in design:
             name=f.name
             levels=f.levels
+            if isinstance(name, HiddenName):
+                _cexit("Combined blocks with a weighted factor outside the crossing are not supported by SMGen.")
 
             _levels=cast(List[object], [])
 
